@@ -277,9 +277,18 @@ class HttpParser:
                 self.state = httpParserStates.COMPLETE
             # Mark request as complete if headers received and no incoming
             # body indication received.
+            #
+            # A request without content-length and transfer-encoding, or any
+            # message with content-length 0, has no body.  Bytes following
+            # such a message belongs to the next message.  Only a response
+            # without framing headers is delimited by connection close.
             elif self.state == httpParserStates.HEADERS_COMPLETE and \
                     not (self._content_expected or self._is_chunked_encoded) and \
-                    raw == b'':
+                    (
+                        raw == b'' or
+                        self.type == httpParserTypes.REQUEST_PARSER or
+                        self.has_header(b'content-length')
+                    ):
                 self.state = httpParserStates.COMPLETE
         self.buffer = None if raw == b'' else raw
 
